@@ -308,16 +308,55 @@ def gen_scenario(rng, strict_times=True):
     ops = []
     nmods = rng.randint(2, 4)
     mods = {}
+    # symbol directory separate from the data directory (--with-syms)?
+    ws = rng.random() < 0.45
+    ops.append("WS %d" % ws)
+    # which modules share a basename (different directories, different build-ids)
+    shared = set()
+    if rng.random() < 0.6:
+        shared = set(rng.sample(range(1, nmods + 1), rng.randint(2, nmods)))
+    if strict_times:
+        # combinations in which every module has its own symbol file and the loader can tell them
+        # apart: with --with-syms only the build-id distinguishes same-named modules
+        shared_bids = "all" if ws else rng.choice(["all", "none"])
+    else:
+        shared_bids = rng.choice(["all", "none", "mixed", "sameprefix"])
+    used_prefix = set()
+
+    def fresh_bid():
+        while True:
+            b = "%040x" % rng.getrandbits(160)
+            if b[:4] not in used_prefix:
+                used_prefix.add(b[:4])
+                return b
+
+    common = fresh_bid()
+    dl_ok = []
     for m in range(1, nmods + 1):
         t = clean_table(rng, spread=True)      # symbols spread over several 0x1000 segments
         mods[m] = t
-        if rng.random() < 0.5:
-            # same basename in different directories for some modules
-            path = "/nonexistent-c10/d%d/%s" % (m, rng.choice(["libsame.so", "lib%d.so" % m]))
-            ops.append("MODS %x %s %s %s" % (m, hx(path), "-", " ".join(sym_tok(s) for s in t)))
+        if m in shared:
+            path = "/nonexistent-c10/d%d/libsame.so" % m
+            if shared_bids == "all":
+                bid = fresh_bid()
+            elif shared_bids == "none":
+                bid = ""
+            elif shared_bids == "mixed":
+                bid = rng.choice(["", fresh_bid()])
+            else:
+                bid = common[:4] + ("%036x" % rng.getrandbits(144))
+            ops.append("MODS %x %s %s %s" % (m, hx(path), hx(bid), " ".join(sym_tok(s) for s in t)))
+            if not strict_times:
+                dl_ok.append(m)
+        elif rng.random() < 0.5:
+            path = "/nonexistent-c10/d%d/lib%d.so" % (m, m)
+            bid = rng.choice(["", fresh_bid()])
+            ops.append("MODS %x %s %s %s" % (m, hx(path), hx(bid), " ".join(sym_tok(s) for s in t)))
+            dl_ok.append(m)
         else:
             text = "".join("%016x %08x %c %s\n" % s for s in t)
             ops.append("MODT %x %s" % (m, hx(text)))
+            dl_ok.append(m)
     span = 0x1000
     time = [rng.randint(1, 1000)]
 
@@ -383,9 +422,9 @@ def gen_scenario(rng, strict_times=True):
             ops.append("T %x %x %x" % (pid, pid, t))
             procs[pid] = sid
             hist[pid].append((t, sid))
-        else:                                         # dlopen in some session
+        elif dl_ok:                                   # dlopen in some session
             sid = rng.choice(sorted(sessions))
-            m = rng.choice(sorted(mods))
+            m = rng.choice(dl_ok)
             olddl = sessions[sid]["dl"]
             if olddl and rng.random() < 0.4:
                 base = olddl[-1][1]                   # reuse an address (dlclose + dlopen)
@@ -396,7 +435,7 @@ def gen_scenario(rng, strict_times=True):
             ops.append("D %x %x %x %x" % (sid, t, base, m))
             olddl.append((t, base, m))
             if not strict_times and rng.random() < 0.4:
-                m2 = rng.choice(sorted(mods))         # a second library, same time, same address
+                m2 = rng.choice(dl_ok)                # a second library, same time, same address
                 ops.append("D %x %x %x %x" % (sid, t, base, m2))
                 olddl.append((t, base, m2))
     tend = time[0] + 1000
